@@ -96,7 +96,17 @@ def body(ctx):
     e2 = 'evaluate' if entry == 'evaluate-expr' else entry
     main, files = sc.build_files(sc.MODES[mode], e2)
     exp_cls, exp_line, exp_file = _expected(mode, entry, main, files)
-    sb = sc.contextualize(main, files)
+    if entry == 'import' and ctx.choose(2, 'attached-as-a-second-submission'):
+        # another student's (healthy) files were graded on this report first; this submission is attached without clearing
+        case['second_submission_on_the_report'] = True
+        sc.contextualize("import helper\n", {'answer.py': "import helper\n", 'helper.py': "fine = 1\n"})
+        sc.sb_cmds.run()
+        sc.cmds.contextualize_report(sc.Submission(files=files, main_file='answer.py', main_code=main), clear=False)
+        sb = sc.sb_cmds.get_sandbox()
+        sb.data.pop('helper', None)
+        sb.clear_exception()
+    else:
+        sb = sc.contextualize(main, files)
     sb.threaded = threaded
     sb.tracer_style = tracer
     sb.allowed_time = 20
